@@ -1,52 +1,157 @@
-"""T-panicsites (group C03): inventory of every panic site of the `ide` crate outside test code:
-`panic!`, `unreachable!`, `unimplemented!`, `todo!`, `assert*!`, `.unwrap()`, `.expect(..)`, index
-expressions `x[..]` (slice / map indexing), and calls of library functions that assert their arguments (rowan
-`covering_element`, `token_at_offset`, `TextRange::new`, iset `insert` / `iter` with a possibly empty range).  Output: coq/gen/GenPanicSites.v with
-  panic_sites : list (string * string * string * nat)   (file, enclosing fn, normalised text, occurrence within the fn)
-The disposition of each site (proved / oracle) lives in proofs/SymbolPanicSites.v; a site without a
+"""T-panicsites (group C03; maintained by group grammar): inventory of every panic site of the `ide` crate outside test
+code: `panic!`, `unreachable!`, `unimplemented!`, `todo!`, `(debug_)assert*!`, `.unwrap()`, `.expect(..)` (+ `_err`
+variants), index expressions `x[..]` (slice / map indexing), and calls of library functions that assert their arguments
+(rowan `covering_element`, `token_at_offset`, `TextRange::new`, iset `insert` / `iter` with a possibly empty range).
+Output: coq/gen/GenPanicSites.v with
+  panic_sites : list (string * string * string * string * nat)
+                     (file, enclosing fn, kind of construct, callee / macro name, ordinal)
+The IDENTITY of a site deliberately contains no source text:
+  * kind    = "macro" | "method" | "index" | "libcall"
+  * callee  = macro name (`panic`, `assert_eq`, ..) | method name (`unwrap`, `expect`, ..) | for an index expression
+              `self.<field>` when a field of self is indexed and `_` otherwise (locals / parameters / temporaries are all
+              `_`) | the library function (`covering_element`, `token_at_offset`, `TextRange::new`, `iset.iter(range)`,
+              `iset.insert(range)`)
+  * ordinal = number of earlier sites with the same (file, fn, kind, callee), in source order
+  * enclosing fn = innermost `fn` item whose body contains the site (brace matching on the comment- and literal-free
+              text), `<top>` outside every fn; methods of the same name in one file share a name space.
+Hence renaming locals / parameters / closure parameters, changing comments, messages of `expect` / `panic!`, white space or
+line breaks does not change the inventory; an ADDED site (new ordinal), a site that MOVES to another function or file, or
+a site whose construct changes does.  The readable text of every site is emitted as a Coq comment only.
+The disposition of each site (proved / oracle / other property) lives in proofs/SymbolPanicSites.v; a site without a
 disposition breaks the obligation `C03_panic_sites_inventoried`."""
 import os
 import re
 
-PAT = re.compile(
-    r'(panic!\s*\((?:"[^"]*")?|unreachable!\s*\((?:"[^"]*")?|unimplemented!\s*\(|todo!\s*\(|'
-    r'assert(?:_eq|_ne)?!\s*\(|\.unwrap\(\)|\.expect\(\s*"[^"]*"\s*\)|\.expect\(|'
-    r'covering_element\(|token_at_offset\(|TextRange::new\(|\.iter\(loc\.range\)|\.insert\(loc\.range\.into\(\)|'
-    r'(?<=[A-Za-z0-9_\)])\[[^\]\n]*\])')
-FN = re.compile(r'\bfn\s+([A-Za-z_][A-Za-z0-9_]*)')
-SKIP_INDEX = re.compile(r'(vec!|T!|TY!|#!?)$')
+# ---- comment / literal stripping (keeps offsets irrelevant; literals are replaced by `""` / `' '`)
+_LEX = re.compile(
+    r'//[^\n]*'                                   # line comment (incl. doc comments)
+    r'|/\*'                                       # block comment start (nesting handled by hand)
+    r'|b?r(#*)"'                                  # raw string start
+    r'|b?"(?:\\.|[^"\\])*"'                       # string literal
+    r"|b?'(?:\\(?:x[0-9a-fA-F]{2}|u\{[0-9a-fA-F_]+\}|.)|[^\\'\n])'",   # char / byte literal (a lifetime has no closing quote)
+    re.S)
 
 
-def strip_comments(line):
-    # good enough for this code base: no `//` inside string literals on lines with panic sites
-    i = line.find("//")
-    return line if i < 0 else line[:i]
+def strip_source(src):
+    """returns (code, literals): code without comments, every string literal replaced by "<n>" where n indexes literals"""
+    out, lits = [], []
+    i = 0
+    while True:
+        m = _LEX.search(src, i)
+        if not m:
+            out.append(src[i:])
+            break
+        out.append(src[i:m.start()])
+        t = m.group(0)
+        if t.startswith("//"):
+            out.append(" ")
+            i = m.end()
+        elif t == "/*":
+            depth, j = 1, m.end()
+            while depth and j < len(src):
+                if src.startswith("/*", j):
+                    depth += 1
+                    j += 2
+                elif src.startswith("*/", j):
+                    depth -= 1
+                    j += 2
+                else:
+                    j += 1
+            out.append(" ")
+            i = j
+        elif t.endswith('"') and m.group(1) is not None and re.match(r'b?r#*"$', t):
+            close = '"' + m.group(1)
+            j = src.find(close, m.end())
+            j = len(src) if j < 0 else j
+            lits.append(src[m.end():j])
+            out.append('"%d"' % (len(lits) - 1))
+            i = j + len(close)
+        elif t.endswith('"'):
+            lits.append(t[t.index('"') + 1:-1])
+            out.append('"%d"' % (len(lits) - 1))
+            i = m.end()
+        else:
+            out.append("' '")
+            i = m.end()
+    return "".join(out), lits
+
+
+MACROS = ("panic", "unreachable", "unimplemented", "todo", "debug_assert_eq", "debug_assert_ne", "debug_assert",
+          "assert_eq", "assert_ne", "assert")
+METHODS = ("unwrap", "expect", "unwrap_err", "expect_err")
+TOKEN = re.compile(
+    r'(?P<fn>\bfn\s+(?P<fname>[A-Za-z_][A-Za-z0-9_]*))'
+    r'|(?P<macro>\b(?:%s)\s*!\s*[\(\[\{])' % "|".join(MACROS) +
+    r'|(?P<method>\.\s*(?:%s)\s*\()' % "|".join(METHODS) +
+    r'|(?P<lib>\b(?:covering_element|token_at_offset)\s*\(|\bTextRange\s*::\s*new\s*\('
+    r'|\.\s*iter\s*\(\s*[A-Za-z0-9_\.]+\.range\s*\)|\.\s*insert\s*\(\s*[A-Za-z0-9_\.]+\.range\s*\.\s*into\s*\(\s*\))'
+    r'|(?P<index>(?<=[A-Za-z0-9_\)\]\?])\[)'
+    r'|(?P<open>[\{\(\[])|(?P<close>[\}\)\]])|(?P<semi>;)')
+INDEX_BASE = re.compile(r'(self\s*\.\s*[A-Za-z_][A-Za-z0-9_]*)\s*$')
+KEYWORDS_BEFORE_BRACKET = re.compile(r'\b(?:in|return|break|else|match|if|while|mut|ref|move|as|let|const|static|dyn|impl|for|where)$')
+
+
+def _snippet(code, lits, start, n=48):
+    s = re.sub(r"\s+", " ", code[start:start + n].split("\n")[0]).strip()
+    return re.sub(r'"(\d+)"', lambda m: '"%s"' % lits[int(m.group(1))].replace("\n", " ")[:40], s)
 
 
 def sites_of(path, rel):
-    out = []
-    fn = "<top>"
-    counts = {}
-    for line in open(path, encoding="utf-8"):
-        if "#[cfg(test)]" in line:
-            break                      # test modules sit at the end of every file of this crate
-        code = strip_comments(line)
-        m = FN.search(code)
-        if m:
-            fn = m.group(1)
-        for m in PAT.finditer(code):
-            text = m.group(1)
-            if text.startswith("["):
-                pre = code[:m.start()]
-                if SKIP_INDEX.search(pre) or re.search(r'(vec|T|TY)!$', pre):
-                    continue
-                # attribute / array type / slice pattern are not preceded by an identifier or `)`, already excluded
-            text = re.sub(r"\s+", " ", text).strip()
-            if text.endswith("("):
-                text = text[:-1]
-            key = (rel, fn, text)
-            counts[key] = counts.get(key, 0) + 1
-            out.append((rel, fn, text, counts[key] - 1))
+    src = open(path, encoding="utf-8").read()
+    cut = src.find("#[cfg(test)]")          # test modules sit at the end of every file of this crate
+    if cut >= 0:
+        src = src[:cut]
+    code, lits = strip_source(src)
+    out, counts = [], {}
+    stack = []                  # (fn name, brace depth of its body)
+    pending = None              # (fn name, bracket depth at the `fn` keyword): waiting for the body `{` or a `;`
+    depth = 0                   # depth over all of { ( [
+
+    def add(kind, callee, pos):
+        fn = stack[-1][0] if stack else "<top>"
+        key = (rel, fn, kind, callee)
+        n = counts.get(key, 0)
+        counts[key] = n + 1
+        out.append((rel, fn, kind, callee, n, _snippet(code, lits, pos)))
+
+    for m in TOKEN.finditer(code):
+        if m.group("fn"):
+            pending = (m.group("fname"), depth)
+        elif m.group("macro"):
+            add("macro", re.match(r'[a-z_]+', m.group("macro")).group(0), m.start())
+            depth += 1                                  # the macro's opening delimiter
+        elif m.group("method"):
+            add("method", re.search(r'[a-z_]+', m.group("method")).group(0), m.start())
+            depth += 1
+        elif m.group("lib"):
+            t = re.sub(r"\s+", "", m.group("lib"))
+            if t.startswith(".iter("):
+                add("libcall", "iset.iter(range)", m.start())       # the whole call is matched: depth unchanged
+            elif t.startswith(".insert("):
+                add("libcall", "iset.insert(range)", m.start())
+                depth += 1                              # `.insert(` stays open, `into()` is matched completely
+            else:
+                add("libcall", t[:-1], m.start())
+                depth += 1
+        elif m.group("index"):
+            pre = code[max(0, m.start() - 80):m.start()]
+            if not KEYWORDS_BEFORE_BRACKET.search(pre):
+                b = INDEX_BASE.search(pre)
+                add("index", re.sub(r"\s+", "", b.group(1)) if b else "_", m.start())
+            depth += 1
+        elif m.group("open"):
+            if m.group("open") == "{" and pending is not None and depth == pending[1]:
+                stack.append((pending[0], depth))
+                pending = None
+            depth += 1
+        elif m.group("close"):
+            if depth > 0:
+                depth -= 1
+            if m.group("close") == "}" and stack and stack[-1][1] == depth:
+                stack.pop()
+        elif m.group("semi"):
+            if pending is not None and depth == pending[1]:
+                pending = None                          # a declaration without body (trait method)
     return out
 
 
@@ -54,7 +159,7 @@ def coq_str(s):
     return '"' + s.replace('"', '""') + '"'
 
 
-def translate(repo):
+def scan(repo):
     root = os.path.join(repo, "crates", "ide", "src")
     sites = []
     for d, _, fs in sorted(os.walk(root)):
@@ -66,12 +171,23 @@ def translate(repo):
             if rel.startswith("bin" + os.sep):
                 continue                # the dump binary is not part of the analysis
             sites += sites_of(p, rel)
+    return sites
+
+
+def translate(repo):
+    sites = scan(repo)
     if not sites:
         raise ValueError("no panic site found: the scanner no longer understands the sources")
-    body = ";\n".join("  (%s, %s, %s, %d%%nat)" % (coq_str(a), coq_str(b), coq_str(c), n) for a, b, c, n in sites)
-    v = ("(** GENERATED by tools/translate/t_panicsites.py from crates/ide/src -- do not edit. *)\n"
+    lines = []
+    for i, (a, b, k, c, n, text) in enumerate(sites):
+        sep = ";" if i + 1 < len(sites) else ""
+        lines.append("  (%s, %s, %s, %s, %d%%nat)%s (* %s *)" % (coq_str(a), coq_str(b), coq_str(k), coq_str(c), n, sep,
+                                                           text.replace("(*", "( *").replace("*)", "* )")))
+    v = ("(** GENERATED by tools/translate/t_panicsites.py from crates/ide/src -- do not edit.\n"
+         "    (file, enclosing fn, kind of construct, callee / macro name, ordinal among the sites with the same first four\n"
+         "    components); the source text of a site is a comment only and not part of its identity. *)\n"
          "From Coq Require Import String List.\nImport ListNotations.\nOpen Scope string_scope.\n\n"
-         "Definition panic_sites : list (string * string * string * nat) := [\n%s\n].\n" % body)
+         "Definition panic_sites : list (string * string * string * string * nat) := [\n%s\n].\n" % "\n".join(lines))
     return {"GenPanicSites.v": v}
 
 
